@@ -292,10 +292,15 @@ func drawLeaf(rt *rapid.T, t reflect.Type) reflect.Value {
 			v.Set(reflect.MakeChan(t, 1))
 		}
 	case reflect.Func:
-		switch rapid.IntRange(0, 2).Draw(rt, "func") {
-		case 1:
+		k := rapid.IntRange(0, 2).Draw(rt, "func")
+		switch {
+		case k == 0:
+		case t != reflect.TypeOf(ut.F1):
+			// another function type: two distinct function values made by reflection (results are zero values)
+			v.Set(madeFunc(t, k))
+		case k == 1:
 			v.Set(reflect.ValueOf(ut.F1))
-		case 2:
+		default:
 			v.Set(reflect.ValueOf(ut.F2))
 		}
 	case reflect.Pointer:
@@ -380,3 +385,23 @@ func ValueMask(t reflect.Type) []bool { return valueMask(t) }
 
 // BytesAt views n bytes of memory.
 func BytesAt(p unsafe.Pointer, n uintptr) []byte { return bytesAt(p, n) }
+
+var madeFuncs = map[[2]any]reflect.Value{}
+
+// madeFunc returns the k-th function value of type t (the same value for the same (t, k): function values are
+// compared by their code pointer in the byte image).
+func madeFunc(t reflect.Type, k int) reflect.Value {
+	key := [2]any{t, k}
+	if f, ok := madeFuncs[key]; ok {
+		return f
+	}
+	f := reflect.MakeFunc(t, func([]reflect.Value) []reflect.Value {
+		out := make([]reflect.Value, t.NumOut())
+		for i := range out {
+			out[i] = reflect.Zero(t.Out(i))
+		}
+		return out
+	})
+	madeFuncs[key] = f
+	return f
+}
